@@ -96,6 +96,16 @@ Theorem C13_commit_wait : forall bound max_sleep_ns fuel script,
 Proof. exact T_C13_commit_wait. Qed.
 Print Assumptions C13_commit_wait.
 
+(* --- SetCommitWaitUntilTSO may be called any number of times on one transaction (raise, lower, zero, repeat): the
+       constraint in effect is the maximum of everything registered (zero never erases), and a commit timestamp
+       returned by GetTimestampForCommit exceeds EVERY registered value, is positive and is one of PD's answers --- *)
+Theorem C13_commit_wait_registrations : forall regs max_sleep_ns fuel script,
+  (0 <= cw_bound regs /\ (forall r, In r regs -> r <= cw_bound regs) /\ (cw_bound regs = 0 \/ In (cw_bound regs) regs)) /\
+  (forall ts c, commit_wait_regs regs max_sleep_ns fuel script = (CwOk ts, c) ->
+     (forall r, In r regs -> r < ts) /\ 0 < ts /\ In (Some ts) script).
+Proof. exact T_C13_commit_wait_registrations. Qed.
+Print Assumptions C13_commit_wait_registrations.
+
 (* --- ValidateReadTS + single flight, any number of validators, any schedule, any order of PD answers --- *)
 (* accept-complete: a rejected read timestamp is larger than everything PD had issued when the call began *)
 Theorem C13_validate_accept_complete : forall (pd : nat -> Z),
@@ -215,6 +225,29 @@ Theorem C13_stale_not_future : forall (pd : nat -> Z) (pd_ns : Z -> Z),
       extract_physical r <= pd_ns now / 1000000 - prev * 1000 /\ extract_logical r = 0.
 Proof. exact T_C13_stale_not_future. Qed.
 Print Assumptions C13_stale_not_future.
+
+(* --- refresh outcomes including failures: every schedule may contain PD failures (EvFail) of foreground calls and
+       of refresher rounds alike; a failed round leaves the published record alone, the entry of the scope stays, the
+       cached value never decreases and is a timestamp PD issued (per scope: every scope is its own instance of the
+       system).  The variant that drops the scope's entry on a failed refresher round is refuted: a PD answer issued
+       earlier but arriving later re-creates the entry with an older timestamp. --- *)
+Theorem C13_refresher_failure : forall (pd : nat -> Z) n es1 es2 t,
+  let s1 := fold_left (step_rdelete pd (fun _ => false)) es1 (init_sys n) in
+  let s2 := fold_left (step_rdelete pd (fun _ => false)) es2 s1 in
+  cell (step pd s1 (EvFail t)) = cell s1 /\
+  (lowres s1 <> None -> lowres s2 <> None) /\
+  ole (lowres s1) (lowres s2) /\
+  (forall v, lowres s2 = Some v -> exists i, (i < issued s2)%nat /\ v = pd i).
+Proof. exact T_C13_refresher_failure. Qed.
+Print Assumptions C13_refresher_failure.
+
+Theorem C13_refresher_delete_refuted :
+  exists (pd : nat -> Z), (forall i j, (i < j)%nat -> pd i < pd j) /\
+  exists n refresher es1 es2 v1 v2,
+    lowres (fold_left (step_rdelete pd refresher) es1 (init_sys n)) = Some v1 /\
+    lowres (fold_left (step_rdelete pd refresher) (es1 ++ es2) (init_sys n)) = Some v2 /\ v2 < v1.
+Proof. exact rdelete_variant_refuted. Qed.
+Print Assumptions C13_refresher_delete_refuted.
 
 (* --- the call-level model refines the CAS-level system: running the calls one after the other (each thread gets
        nine scheduler slots) publishes exactly what Model.set_last (publish the maximum) computes, every call returns
@@ -352,6 +385,8 @@ Example ex_expired : is_expired (Some (compose_ts 100 0)) (compose_ts 90 7) 10 =
 Proof. vm_compute. split; reflexivity. Qed.
 Example ex_commit_wait_ok : commit_wait 100 1000000000 3 [Some 90; Some 100; Some 101] = (CwOk 101, 3%nat).
 Proof. vm_compute. reflexivity. Qed.
+Example ex_cw_registrations : cw_bound [100; 0; 50; 0] = 100 /\ commit_wait_regs [100; 0] 1000000000 3 [Some 90; Some 101] = (CwOk 101, 2%nat).
+Proof. vm_compute. split; reflexivity. Qed.
 Example ex_commit_wait_fuel : commit_wait 100 1000000000 1 [Some 90; Some 100; Some 101] = (CwErr, 2%nat).
 Proof. vm_compute. reflexivity. Qed.
 (* two calls race: the call holding the larger timestamp publishes first, the stale CAS of the other fails *)
